@@ -108,6 +108,21 @@ def run(tier):
         items.append({"msg": gen.wire_msg(r_, maxrr=r_.choice([0, 1, 3, 8, 20]), rawmax=r_.choice([5, 40, 300, 2000]))})
     for m in big_messages(r_, 12 if tier == "quick" else 150):
         items.append({"msg": m})
+    # names that differ only in where the label boundaries are (a label may contain the octet "."): as owner, in
+    # the question and inside RDATA, in both orders, so that a later name could be compressed against the earlier one
+    dot = lambda s: [ord(c) for c in s]
+    for (n1, n2) in (([dot("john.doe"), dot("example"), dot("com")], [dot("john"), dot("doe"), dot("example"), dot("com")]),
+                     ([dot("a.b")], [dot("a"), dot("b")]), ([dot("a"), dot("b.c")], [dot("a.b"), dot("c")]),
+                     ([dot(".")], [[], ]), ([dot("x."), dot("y")], [dot("x"), dot(".y")])):
+        if [] in n2:
+            n2 = [dot("a")]                        # (an empty label cannot occur inside a name)
+        for (p, q2) in ((n1, n2), (n2, n1)):
+            soa = {"name": p, "type": 6, "class": 1, "ttl": [0, 60], "names": [q2, p], "ints": [0] * 10, "raw": []}
+            ns = {"name": q2, "type": 2, "class": 1, "ttl": [0, 60], "names": [p], "ints": [], "raw": []}
+            for (qs, an) in (([{"name": p, "qtype": 1, "qclass": 1}], [ns]), ([{"name": q2, "qtype": 6, "qclass": 1}], [soa, ns]),
+                             ([], [ns, soa])):
+                items.append({"msg": {"id": 77, "qr": True, "opcode": 0, "aa": True, "tc": False, "rd": False, "ra": False,
+                                      "rcode": 0, "questions": qs, "answers": an, "authority": [], "additional": []}})
     # extreme RDATA sizes
     for n in (0, 65535):
         items.append({"msg": {"id": 1, "qr": True, "opcode": 0, "aa": False, "tc": False, "rd": False, "ra": False,
